@@ -16,6 +16,11 @@ for d in sorted(glob.glob(os.path.join(os.path.dirname(os.path.dirname(os.path.a
         else:
             res.append(f"{p}: exit {r['exit']}")
     what = (m.get("what") or "").replace("|", "/").replace("\n", " ")
-    rows.append(f"| {name} | {what[:230]} | {'; '.join(res)} |")
+    note = ""
+    if m.get("neutralised_at_head"):
+        note = f" (evaluated at /repo {m.get('repo_base')}; no longer a breaking change at HEAD: {m['neutralised_at_head']})"
+    elif m.get("applies_to_head") is False:
+        note = f" (evaluated at /repo {m.get('repo_base')}; later fix commits rewrote the lines it edits)"
+    rows.append(f"| {name} | {what[:230]} | {'; '.join(res)}{note} |")
 print("| seeded change | what it does | reported by |\n|---|---|---|")
 print("\n".join(rows))
